@@ -100,6 +100,9 @@ def mk_call(rng, stmt, i, joined, cls="generic"):
             return {"kind": k, "src": ".%s(%r)" % (k, fid), "id": i}
         j = rng.randrange(6)
         return {"kind": k, "src": ".%s('alf%d')" % (k, j), "id": j}    # the name carries the id the slot comparison reads
+    if k in ("groupby", "orderby") and rng.random() < 0.15:
+        # a position in the select list (an int): legal before the select list is complete
+        return {"kind": k, "src": ".%s(%d)" % (k, i + 1), "id": i + 1}
     if k == "groupby":
         return {"kind": k, "src": ".groupby(T('t').%s)" % fid, "id": i}
     if k == "having":
@@ -321,6 +324,8 @@ def _fid(term):
     """identifier carried by a generated term: the number in its f<id> field / value"""
     s = term.get_sql(quote_char=None) if hasattr(term, "get_sql") else str(term)
     m = re.findall(r"f(\d+)", s)
+    if not m and s.strip().isdigit():
+        return int(s)        # a select-list position given to groupby / orderby
     return int(m[-1]) if m else None
 
 
